@@ -84,3 +84,83 @@ Theorem C11_add_filter_list_independent : forall parse_line fs text text' l1 bad
   rbind (add_filter_list parse_line fs text') (fun x => Ok (snd x)).
 Proof. exact add_filter_list_independent. Qed.
 Print Assumptions C11_add_filter_list_independent.
+
+(* ---- the remaining slicing code: hosts-line normalisation, scriptlet arguments,
+   NetworkFilter::parse, CosmeticFilter::parse (default build: no CSS validation) *)
+Theorem C11_hosts_line_total : forall s w,
+  valid_utf8 s = true -> hosts_hostname s <> Panic w.
+Proof. intros s w Hv. apply safe_not_panic. apply hosts_hostname_props. exact Hv. Qed.
+Print Assumptions C11_hosts_line_total.
+
+Theorem C11_index_next_unescaped_separator_total : forall s sep w,
+  valid_utf8 s = true -> sep < 128 -> index_next_unescaped_separator s sep <> Panic w.
+Proof. intros s sep w Hv Hs. apply safe_not_panic. apply inus_props; assumption. Qed.
+Print Assumptions C11_index_next_unescaped_separator_total.
+
+Theorem C11_parse_scriptlet_args_total : forall s w,
+  valid_utf8 s = true -> parse_scriptlet_args s <> Panic w.
+Proof. intros s w Hv. apply safe_not_panic. apply parse_scriptlet_args_safe. exact Hv. Qed.
+Print Assumptions C11_parse_scriptlet_args_total.
+
+Theorem C11_network_parse_total : forall lower idna line w,
+  valid_utf8 line = true -> network_parse lower idna line <> Panic w.
+Proof. intros lower idna s w Hv. apply safe_not_panic. apply network_parse_safe. exact Hv. Qed.
+Print Assumptions C11_network_parse_total.
+
+Theorem C11_cosmetic_parse_total : forall idna line w,
+  valid_utf8 line = true -> cosmetic_parse idna line <> Panic w.
+Proof. intros idna s w Hv. apply safe_not_panic. apply cosmetic_parse_safe. exact Hv. Qed.
+Print Assumptions C11_cosmetic_parse_total.
+
+(* ---- parse_filter, both formats, all rule types; the only contract on third-party code is
+   that idna returns valid UTF-8 (a Rust String); str::to_lowercase may return anything *)
+Theorem C11_parse_filter_total : forall lower idna,
+  (forall s h, idna s = Some h -> valid_utf8 h = true) ->
+  forall line fmt rt w, valid_utf8 line = true -> parse_filter lower idna line fmt rt <> Panic w.
+Proof.
+  intros lower idna Hi line fmt rt w Hv. apply safe_not_panic. apply parse_filter_safe; assumption.
+Qed.
+Print Assumptions C11_parse_filter_total.
+
+Theorem C11_add_filter_list_total : forall lower idna,
+  (forall s h, idna s = Some h -> valid_utf8 h = true) ->
+  forall fs text fmt rt w, valid_utf8 text = true ->
+  add_filter_list (fun l => parse_filter lower idna l fmt rt) fs text <> Panic w.
+Proof.
+  intros lower idna Hi fs text fmt rt w Hv. apply safe_not_panic. apply add_filter_list_safe; assumption.
+Qed.
+Print Assumptions C11_add_filter_list_total.
+
+(* ---- hosts entries and rule types *)
+Theorem C11_hosts_equiv : forall lower idna line rt p,
+  parse_filter lower idna line FF_Hosts rt = Ok (inl p) ->
+  exists h a f,
+    hosts_hostname (trim line) = Ok (inl h) /\ norm_host lower idna h = Some a /\
+    network_parse lower idna (bs "||" ++ a ++ bs "^") = Ok (inl f) /\ p = PNetwork f.
+Proof. exact hosts_equiv. Qed.
+Print Assumptions C11_hosts_equiv.
+
+Theorem C11_rule_types_respected_line : forall lower idna line fmt rt p,
+  parse_filter lower idna line fmt rt = Ok (inl p) ->
+  match p with
+  | PNetwork _ => loads_network rt = true
+  | PCosmetic _ => loads_cosmetic rt = true /\ fmt = FF_Standard
+  end.
+Proof. exact parse_filter_rule_types. Qed.
+Print Assumptions C11_rule_types_respected_line.
+
+Theorem C11_rule_types_respected : forall lower idna fmt rt ls m mm ns cs,
+  parse_list (fun l => parse_filter lower idna l fmt rt) ls m = Ok (mm, ns, cs) ->
+  (loads_cosmetic rt = false \/ fmt = FF_Hosts -> cs = []) /\ (loads_network rt = false -> ns = []).
+Proof. exact rule_types_respected. Qed.
+Print Assumptions C11_rule_types_respected.
+
+(* ---- tie: the option table of the model agrees with the match arms extracted from
+   /repo/src/filters/abstract_network.rs and network.rs on this run (a finite table) *)
+Theorem C11_option_table_agrees :
+  forallb arm_agrees c11_option_arms = true /\
+  forallb (fun n => existsb (fun a => String.eqb n (fst (fst a))) c11_option_arms) model_option_names = true /\
+  forallb (fun a => existsb (String.eqb (fst (fst a))) model_option_names) c11_option_arms = true /\
+  parse_option (bs "no-such-option") = inr "UnrecognisedOption"%string.
+Proof. exact option_table_agrees. Qed.
+Print Assumptions C11_option_table_agrees.
